@@ -379,7 +379,7 @@ class Job:
     def __init__(self, name, c_text, kind, entry="harness", enforce=None, replace=(), loop_contracts=False,
                  unwind=None, solver=None, timeout=120, extra=(), covers=(), expect_fail=(), defines=(),
                  bounded=None, functions=(), nondet_static=False, rec=False, mem_gb=8, group=None, split=None,
-                 split_timeout=60, split_chunk=1):
+                 split_timeout=60, split_chunk=1, unwindset=()):
         self.name, self.c_text, self.kind, self.entry = name, c_text, kind, entry
         self.enforce, self.replace, self.loop_contracts = enforce, list(replace), loop_contracts
         self.unwind, self.solver, self.timeout, self.extra = unwind, solver, timeout, list(extra)
@@ -395,6 +395,7 @@ class Job:
         self.split = split                 # regex: obligations run one by one (--property, sliced)
         self.split_timeout = split_timeout
         self.split_chunk = split_chunk
+        self.unwindset = list(unwindset)    # loops unwound by goto-instrument before loop contracts are applied
         self.results = {}                  # obligation -> 'SUCCESS' | 'FAILURE' | ...
         self.status = None                 # 'ok' | 'timeout' | 'error'
         self.seconds = 0.0
@@ -476,6 +477,20 @@ def exec_job(job, workdir):
             log.append(so[-4000:] + se[-4000:])
             if rc != 0:
                 return fail("error", "goto-instrument --dfcc failed")
+            cur = nxt
+        if job.kind == "M" and job.loop_contracts:
+            # loops of contract stubs (constant-bound frame havoc) are unwound first: --apply-loop-contracts insists on
+            # a contract for every loop reachable inside a loop that has one
+            rc, so, se, sec = run(["goto-instrument", "--show-loops", cur], d, 120)
+            loops = re.findall(r"^Loop (\S+):", so, re.M)
+            job.unwindset = ["%s:%d" % (l, job.unwind) for l in loops
+                             if not (l.rsplit(".", 1)[0].endswith("__impl") or l.startswith("harness"))]
+        if job.kind == "M" and job.unwindset:
+            nxt = os.path.join(d, "u.gb")
+            rc, so, se, sec = run(["goto-instrument", "--unwindset", ",".join(job.unwindset), "--unwinding-assertions", cur, nxt], d, 300)
+            log.append(so[-2000:] + se[-2000:])
+            if rc != 0:
+                return fail("error", "goto-instrument --unwindset failed")
             cur = nxt
         if job.kind == "M" and job.loop_contracts:
             nxt = os.path.join(d, "b.gb")
@@ -636,7 +651,7 @@ class Report:
     def out(self, s):
         print(s, flush=True)
 
-    def absorb(self, jobs, replay_cb=None):
+    def absorb(self, jobs, replay_cb=None, keep=None):
         known = [k for k in load_known_findings() if k["property"] == self.prop_id and k.get("status", "open") == "open"]
         known_hit = set()
         for job in jobs:
@@ -653,6 +668,8 @@ class Report:
             seen_cover = set()
             for key, (status, desc) in sorted(job.results.items()):
                 label = desc if desc.startswith(("OBL:", "COVER:")) else key
+                if keep is not None and not keep(desc):
+                    continue      # obligation belongs to another property's check (tagged [Cxx])
                 if desc.startswith("COVER:") or desc in job.covers:
                     seen_cover.add(desc)
                     if status == "FAILURE":
